@@ -90,6 +90,9 @@ Do(Dirs, s, act) ==
             LET idx == SliceIdx(LenOf(s, act.o), act.lo, act.hi, act.st)
                 s1 == Alloc(s, [k |-> "nest", base |-> s.objs[act.o].tr, idx |-> idx]) IN
             [s |-> s1, res |-> <<"obj", Len(idx)>>]
+      [] act.a = "popof" ->                    \* Population(container): a population over an existing container (a slice view, ...); the constructor may probe element 0
+            LET s1 == Alloc(s, [k |-> "pop", tr |-> act.o]) IN
+            [s |-> Probe(s1, Len(s1.objs)), res |-> <<"obj", LenOf(s1, Len(s1.objs))>>]
       [] act.a = "iter" ->                     \* list(container)
             LET r == IterFrom(s, act.o, 0, <<>>) IN [s |-> r.s, res |-> <<"trees", r.out>>]
       [] act.a = "map" ->                      \* list(population.map(fn))
